@@ -183,6 +183,7 @@ type Report struct {
 	Failures    []Failure      `json:"failures"`
 	FailTotal   map[string]int `json:"failures_total"`
 	seen        map[uint64]struct{}
+	auto        []any // the first distinct non-trivial cases, written out as samples when the harness recorded none itself
 }
 
 func NewReport(rule string) *Report {
@@ -203,6 +204,13 @@ func (r *Report) Eval(canon string, nontrivial bool) {
 	if _, ok := r.seen[k]; !ok {
 		r.seen[k] = struct{}{}
 		r.Distinct++
+		if len(r.auto) < 8 {
+			c := canon
+			if len(c) > 600 {
+				c = c[:600] + "…"
+			}
+			r.auto = append(r.auto, c)
+		}
 	}
 }
 
@@ -242,6 +250,9 @@ func (r *Report) Write(path string, d *Driver) {
 		r.DriverLines = d.N
 	}
 	sort.SliceStable(r.Failures, func(i, j int) bool { return r.Failures[i].Kind < r.Failures[j].Kind })
+	if len(r.Samples) == 0 && len(r.auto) > 0 {
+		r.Samples = r.auto
+	}
 	b, _ := json.MarshalIndent(r, "", " ")
 	if path == "" {
 		os.Stdout.Write(b)
